@@ -1,3 +1,736 @@
 package main
 
-func msgRun() {}
+// C45: handshake message codec.  Shapes (type x presence vector x operation) come from
+// specs/Tls/GenMsg.tla together with the node list of the shape in wire order and the verdict
+// (accept / reject / any).  This file fills the message structs with seeded contents
+// (reflection over the unexported fields), finds byte offsets by walking the marshalled bytes
+// along the node list, and runs the real marshal / unmarshal under recover on buffers whose
+// capacity equals their length (any access outside the message panics).
+
+import (
+	"bytes"
+	"encoding/json"
+	"fmt"
+	"hash/fnv"
+	mrand "math/rand"
+	"os"
+	"reflect"
+	"sort"
+	"strings"
+	"unsafe"
+
+	"github.com/bfenetworks/bfe/bfe_tls"
+
+	"verifharness/vh"
+)
+
+type msgNode struct {
+	ID    string `json:"id"`
+	K     string `json:"k"`
+	Par   string `json:"par"`
+	LB    int    `json:"lb"`
+	SZ    int    `json:"sz"`
+	Tag   int    `json:"tag"`
+	Opt   string `json:"opt"`
+	EndOK bool   `json:"endok"`
+}
+
+type msgOp struct {
+	K      string `json:"k"` // rt | cut | pert
+	Node   string `json:"node"`
+	W      string `json:"w"`
+	Framed bool   `json:"framed"`
+	Expect string `json:"expect"` // accept | reject | any
+}
+
+type msgShape struct {
+	ID    int       `json:"id"`
+	T     string    `json:"t"`
+	Pres  []string  `json:"pres"`
+	Nodes []msgNode `json:"nodes"`
+	Ops   []msgOp   `json:"ops"`
+	Reps  int       `json:"reps"`           // content variants per shape
+	Rep0  int       `json:"rep0"`           // first variant number (replay: the failing one)
+	Fuzz  int       `json:"fuzz"`           // random mutations per variant (panic check only)
+	Seed  *int64    `json:"seed,omitempty"` // replay: the seed of the run that found the case
+}
+
+// ---------------------------------------------------------------- reflection over unexported fields
+func fld(m interface{}, name string) (reflect.Value, error) {
+	v := reflect.ValueOf(m).Elem()
+	f := v.FieldByName(name)
+	if !f.IsValid() {
+		return f, fmt.Errorf("%s has no field %q", v.Type(), name)
+	}
+	return reflect.NewAt(f.Type(), unsafe.Pointer(f.UnsafeAddr())).Elem(), nil
+}
+
+type setter struct {
+	m   interface{}
+	set map[string]bool
+	err error
+}
+
+func (s *setter) put(name string, val interface{}) {
+	f, err := fld(s.m, name)
+	if err != nil {
+		if s.err == nil {
+			s.err = err
+		}
+		return
+	}
+	s.set[name] = true
+	rv := reflect.ValueOf(val)
+	switch {
+	case rv.Type().AssignableTo(f.Type()):
+		f.Set(rv)
+	case rv.Kind() == reflect.Slice && f.Kind() == reflect.Slice && f.Type().Elem().Kind() == reflect.Struct:
+		// [][2]byte -> []signatureAndHash{hash, signature}
+		out := reflect.MakeSlice(f.Type(), rv.Len(), rv.Len())
+		for i := 0; i < rv.Len(); i++ {
+			e := out.Index(i)
+			for j := 0; j < 2; j++ {
+				ef := e.Field(j)
+				reflect.NewAt(ef.Type(), unsafe.Pointer(ef.UnsafeAddr())).Elem().SetUint(rv.Index(i).Index(j).Uint())
+			}
+		}
+		f.Set(out)
+	case rv.Kind() == reflect.Array && f.Kind() == reflect.Struct:
+		for j := 0; j < 2; j++ {
+			ef := f.Field(j)
+			reflect.NewAt(ef.Type(), unsafe.Pointer(ef.UnsafeAddr())).Elem().SetUint(rv.Index(j).Uint())
+		}
+	case rv.Kind() == reflect.Slice && f.Kind() == reflect.Slice:
+		out := reflect.MakeSlice(f.Type(), rv.Len(), rv.Len())
+		for i := 0; i < rv.Len(); i++ {
+			out.Index(i).Set(rv.Index(i).Convert(f.Type().Elem()))
+		}
+		f.Set(out)
+	case rv.Type().ConvertibleTo(f.Type()):
+		f.Set(rv.Convert(f.Type()))
+	default:
+		if s.err == nil {
+			s.err = fmt.Errorf("cannot set %s (%s) from %s", name, f.Type(), rv.Type())
+		}
+	}
+}
+
+// canon renders a field value so that nil and empty slices compare equal.
+func canon(v reflect.Value) string {
+	switch v.Kind() {
+	case reflect.Slice:
+		parts := make([]string, v.Len())
+		for i := range parts {
+			parts[i] = canon(v.Index(i))
+		}
+		return "[" + strings.Join(parts, ",") + "]"
+	case reflect.Struct:
+		parts := make([]string, v.NumField())
+		for i := range parts {
+			f := v.Field(i)
+			if f.CanAddr() {
+				f = reflect.NewAt(f.Type(), unsafe.Pointer(f.UnsafeAddr())).Elem()
+				parts[i] = canon(f)
+			} else {
+				parts[i] = fmt.Sprint(f)
+			}
+		}
+		return "{" + strings.Join(parts, ",") + "}"
+	case reflect.String:
+		return fmt.Sprintf("%q", v.String())
+	case reflect.Bool:
+		return fmt.Sprint(v.Bool())
+	default:
+		return fmt.Sprint(v.Uint())
+	}
+}
+
+// ---------------------------------------------------------------- seeded contents
+type gen struct{ r *mrand.Rand }
+
+func (g gen) bytes(lo, hi int) []byte {
+	b := make([]byte, lo+g.r.Intn(hi-lo+1))
+	g.r.Read(b)
+	return b
+}
+func (g gen) name(lo, hi int) string {
+	const al = "abcdefghijklmnopqrstuvwxyz0123456789-./"
+	b := make([]byte, lo+g.r.Intn(hi-lo+1))
+	for i := range b {
+		b[i] = al[g.r.Intn(len(al))]
+	}
+	return string(b)
+}
+func (g gen) u16s(lo, hi int, avoid uint16) []uint16 {
+	out := make([]uint16, lo+g.r.Intn(hi-lo+1))
+	for i := range out {
+		for {
+			out[i] = uint16(g.r.Intn(65536))
+			if out[i] != avoid {
+				break
+			}
+		}
+	}
+	return out
+}
+func (g gen) pairs(lo, hi int) [][2]byte {
+	out := make([][2]byte, lo+g.r.Intn(hi-lo+1))
+	for i := range out {
+		out[i] = [2]byte{byte(g.r.Intn(256)), byte(g.r.Intn(256))}
+	}
+	return out
+}
+
+// build fills a fresh message of type t according to the presence flags.
+// preset: fields the caller of unmarshal sets beforehand (version dependent layout switches).
+func build(t string, pres map[string]bool, g gen) (m interface{}, set map[string]bool, preset map[string]interface{}, err error) {
+	m = bfe_tls.VerifTlsrecNewMsg(t)
+	if m == nil {
+		return nil, nil, nil, fmt.Errorf("unknown message type %q", t)
+	}
+	s := &setter{m: m, set: map[string]bool{}}
+	preset = map[string]interface{}{}
+	switch t {
+	case "clientHello":
+		s.put("vers", uint16(g.r.Intn(65536)))
+		s.put("random", g.bytes(32, 32))
+		s.put("sessionId", g.bytes(0, 32))
+		// 0x00ff is the renegotiation SCSV: by RFC 5746 it MEANS secureRenegotiation, so it is kept
+		// out of seeded suite lists (a list with it does not round-trip by design)
+		s.put("cipherSuites", g.u16s(1, 8, 0x00ff))
+		s.put("compressionMethods", g.bytes(1, 3))
+		s.put("nextProtoNeg", pres["npn"])
+		sn := ""
+		if pres["sni"] {
+			sn = g.name(1, 30)
+		}
+		s.put("serverName", sn)
+		s.put("ocspStapling", pres["ocsp"])
+		if pres["curves"] {
+			s.put("supportedCurves", g.u16s(1, 4, 0xffff))
+		} else {
+			s.put("supportedCurves", []uint16{})
+		}
+		if pres["points"] {
+			s.put("supportedPoints", g.bytes(1, 3))
+		} else {
+			s.put("supportedPoints", []byte{})
+		}
+		s.put("ticketSupported", pres["ticket"])
+		if pres["ticket"] {
+			s.put("sessionTicket", g.bytes(0, 40))
+		} else {
+			s.put("sessionTicket", []byte{})
+		}
+		if pres["sigalgs"] {
+			s.put("signatureAndHashes", g.pairs(1, 4))
+		} else {
+			s.put("signatureAndHashes", [][2]byte{})
+		}
+		s.put("secureRenegotiation", pres["reneg"])
+		if pres["alpn"] {
+			s.put("alpnProtocols", []string{g.name(1, 10), g.name(1, 10)})
+		} else {
+			s.put("alpnProtocols", []string{})
+		}
+	case "serverHello":
+		s.put("vers", uint16(g.r.Intn(65536)))
+		s.put("random", g.bytes(32, 32))
+		s.put("sessionId", g.bytes(0, 32))
+		s.put("cipherSuite", uint16(g.r.Intn(65536)))
+		s.put("compressionMethod", uint8(g.r.Intn(256)))
+		s.put("nextProtoNeg", pres["npn"])
+		if pres["npn"] {
+			s.put("nextProtos", []string{g.name(1, 10), g.name(1, 10)})
+		} else {
+			s.put("nextProtos", []string{})
+		}
+		s.put("ocspStapling", pres["ocsp"])
+		s.put("ticketSupported", pres["ticket"])
+		s.put("secureRenegotiation", pres["reneg"])
+		ap := ""
+		if pres["alpn"] {
+			ap = g.name(1, 10)
+		}
+		s.put("alpnProtocol", ap)
+	case "certificate":
+		certs := [][]byte{}
+		for _, f := range []string{"c1", "c2"} {
+			if pres[f] {
+				certs = append(certs, g.bytes(1, 50))
+			}
+		}
+		s.put("certificates", certs)
+	case "serverKeyExchange":
+		s.put("key", g.bytes(0, 60))
+	case "certificateStatus":
+		if pres["ocsp"] {
+			s.put("statusType", uint8(1))
+			s.put("response", g.bytes(1, 40))
+		} else {
+			s.put("statusType", uint8(2+g.r.Intn(254)))
+			s.put("response", []byte{})
+		}
+	case "serverHelloDone":
+	case "clientKeyExchange":
+		s.put("ciphertext", g.bytes(0, 60))
+	case "finished":
+		s.put("verifyData", g.bytes(0, 40))
+	case "nextProto":
+		s.put("proto", g.name(0, 20))
+	case "certificateRequest":
+		s.put("hasSignatureAndHash", pres["sig"])
+		preset["hasSignatureAndHash"] = pres["sig"]
+		s.put("certificateTypes", g.bytes(1, 4))
+		if pres["sig"] {
+			s.put("signatureAndHashes", g.pairs(1, 4))
+		} else {
+			s.put("signatureAndHashes", [][2]byte{})
+		}
+		cas := [][]byte{}
+		for _, f := range []string{"ca1", "ca2"} {
+			if pres[f] {
+				cas = append(cas, g.bytes(1, 30))
+			}
+		}
+		s.put("certificateAuthorities", cas)
+	case "certificateVerify":
+		s.put("hasSignatureAndHash", pres["sig"])
+		preset["hasSignatureAndHash"] = pres["sig"]
+		if pres["sig"] {
+			s.put("signatureAndHash", [2]byte{byte(g.r.Intn(256)), byte(g.r.Intn(256))})
+		}
+		s.put("signature", g.bytes(0, 60))
+	case "newSessionTicket":
+		s.put("ticket", g.bytes(0, 60))
+	case "sessionState":
+		s.put("vers", uint16(g.r.Intn(65536)))
+		s.put("cipherSuite", uint16(g.r.Intn(65536)))
+		s.put("masterSecret", g.bytes(0, 48))
+		certs := [][]byte{}
+		for _, f := range []string{"c1", "c2"} {
+			if pres[f] {
+				certs = append(certs, g.bytes(0, 50))
+			}
+		}
+		s.put("certificates", certs)
+	}
+	return m, s.set, preset, s.err
+}
+
+func fresh(t string, preset map[string]interface{}) (interface{}, error) {
+	m := bfe_tls.VerifTlsrecNewMsg(t)
+	s := &setter{m: m, set: map[string]bool{}}
+	for k, v := range preset {
+		s.put(k, v)
+	}
+	return m, s.err
+}
+
+// ---------------------------------------------------------------- layout walk
+type extent struct {
+	start, lenAt, lb, cstart, cend int
+}
+
+func rdN(d []byte, at, n int) (int, bool) {
+	if at < 0 || at+n > len(d) {
+		return 0, false
+	}
+	v := 0
+	for i := 0; i < n; i++ {
+		v = v<<8 | int(d[at+i])
+	}
+	return v, true
+}
+
+func walk(data []byte, nodes []msgNode) (map[string]*extent, error) {
+	ext := map[string]*extent{}
+	var kids func(par string, pos, end int) (int, error)
+	kids = func(par string, pos, end int) (int, error) {
+		for _, n := range nodes {
+			if n.Par != par {
+				continue
+			}
+			e := &extent{start: pos, lenAt: -1}
+			ext[n.ID] = e
+			switch n.K {
+			case "hdr":
+				l, ok := rdN(data, pos+1, 3)
+				if !ok || pos+4+l != len(data) {
+					return 0, fmt.Errorf("handshake header length %d does not frame the %d-byte message", l, len(data))
+				}
+				e.lenAt, e.lb, e.cstart, e.cend = pos+1, 3, pos+4, pos+4+l
+				pos = pos + 4
+			case "fix":
+				e.cstart, e.cend = pos, pos+n.SZ
+				if e.cend > end {
+					return 0, fmt.Errorf("node %s: fixed field overruns its parent", n.ID)
+				}
+				pos = e.cend
+			case "vec", "ext":
+				if n.K == "ext" {
+					tag, ok := rdN(data, pos, 2)
+					if !ok || tag != n.Tag {
+						return 0, fmt.Errorf("node %s: extension type %d where %d expected", n.ID, tag, n.Tag)
+					}
+					pos += 2
+				}
+				l, ok := rdN(data, pos, n.LB)
+				if !ok || pos+n.LB+l > end {
+					return 0, fmt.Errorf("node %s: length %d overruns its parent", n.ID, l)
+				}
+				e.lenAt, e.lb, e.cstart, e.cend = pos, n.LB, pos+n.LB, pos+n.LB+l
+				hasKids := false
+				for _, c := range nodes {
+					hasKids = hasKids || c.Par == n.ID
+				}
+				if hasKids {
+					p2, err := kids(n.ID, e.cstart, e.cend)
+					if err != nil {
+						return 0, err
+					}
+					if p2 != e.cend {
+						return 0, fmt.Errorf("node %s: children end at %d, declared end %d", n.ID, p2, e.cend)
+					}
+				}
+				pos = e.cend
+			case "cnt":
+				c, ok := rdN(data, pos, n.LB)
+				if !ok {
+					return 0, fmt.Errorf("node %s: count outside the message", n.ID)
+				}
+				e.lenAt, e.lb, e.cstart = pos, n.LB, pos+n.LB
+				nk := 0
+				for _, k := range nodes {
+					if k.Par == n.ID {
+						nk++
+					}
+				}
+				if nk != c {
+					return 0, fmt.Errorf("node %s: count %d for %d elements", n.ID, c, nk)
+				}
+				p2, err := kids(n.ID, e.cstart, end)
+				if err != nil {
+					return 0, err
+				}
+				e.cend = p2
+				pos = p2
+			case "rest":
+				e.cstart, e.cend = pos, end
+				pos = end
+			default:
+				return 0, fmt.Errorf("node %s: unknown kind %q", n.ID, n.K)
+			}
+		}
+		return pos, nil
+	}
+	pos, err := kids("", 0, len(data))
+	if err != nil {
+		return nil, err
+	}
+	if pos != len(data) {
+		return nil, fmt.Errorf("layout ends at %d of %d bytes", pos, len(data))
+	}
+	return ext, nil
+}
+
+// exact makes a copy whose capacity equals its length.
+func exact(b []byte) []byte {
+	c := make([]byte, len(b))
+	copy(c, b)
+	return c[:len(c):len(c)]
+}
+
+func parse(t string, preset map[string]interface{}, data []byte) (m interface{}, ok bool, ptxt string) {
+	m, err := fresh(t, preset)
+	if err != nil {
+		return nil, false, "verif: " + err.Error()
+	}
+	d := exact(data)
+	ptxt = vh.Guard(func() { ok = bfe_tls.VerifTlsrecUnmarshal(m, d) })
+	return
+}
+
+func shapeSeed(seed int64, t string, pres []string, rep int) int64 {
+	h := fnv.New64a()
+	fmt.Fprintf(h, "%d|%s|%s|%d", seed, t, strings.Join(pres, ","), rep)
+	return int64(h.Sum64() >> 1)
+}
+
+// opGen: the random choices of one operation depend only on (seed, shape, variant, operation),
+// so that a replay file holding that single operation reproduces the same bytes.
+func opGen(seed int64, sh *msgShape, rep int, op *msgOp) gen {
+	h := fnv.New64a()
+	fmt.Fprintf(h, "%d|%s|%s|%d|%s|%s|%s|%v", seed, sh.T, strings.Join(sh.Pres, ","), rep, op.K, op.Node, op.W, op.Framed)
+	return gen{mrand.New(mrand.NewSource(int64(h.Sum64() >> 1)))}
+}
+
+type msgFail struct {
+	ID     int         `json:"id"`
+	OK     bool        `json:"ok"`
+	Sig    string      `json:"sig"`
+	Detail string      `json:"detail"`
+	Case   interface{} `json:"case"`
+}
+
+func msgRun() {
+	var total, skipped, shapes int
+	vh.EachCase(func(line []byte) {
+		var sh msgShape
+		if err := json.Unmarshal(line, &sh); err != nil {
+			fmt.Fprintln(os.Stderr, "bad case:", err)
+			vh.Flush()
+			os.Exit(2)
+		}
+		shapes++
+		seed := vh.Seed()
+		if sh.Seed != nil {
+			seed = *sh.Seed
+		}
+		sort.Strings(sh.Pres)
+		pres := map[string]bool{}
+		for _, p := range sh.Pres {
+			pres[p] = true
+		}
+		hasHdr := len(sh.Nodes) > 0 && sh.Nodes[0].K == "hdr"
+		evals, skips := 0, 0
+		fail := func(rep int, op *msgOp, sig, detail string) {
+			c := map[string]interface{}{"t": sh.T, "pres": sh.Pres, "nodes": sh.Nodes, "reps": 1, "rep0": rep,
+				"fuzz": 0, "seed": seed}
+			if op != nil {
+				c["ops"] = []msgOp{*op}
+			} else {
+				c["ops"] = []msgOp{}
+				c["fuzz"] = sh.Fuzz
+			}
+			vh.Emit(msgFail{ID: sh.ID, Sig: sig, Detail: detail, Case: c})
+		}
+		machinery := func(msg string) {
+			vh.Emit(map[string]interface{}{"id": sh.ID, "machinery": fmt.Sprintf("%s %v: %s", sh.T, sh.Pres, msg)})
+		}
+		for rep := sh.Rep0; rep < sh.Rep0+sh.Reps; rep++ {
+			g := gen{mrand.New(mrand.NewSource(shapeSeed(seed, sh.T, sh.Pres, rep)))}
+			m1, set, preset, err := build(sh.T, pres, g)
+			if err != nil {
+				machinery(err.Error())
+				return
+			}
+			var data []byte
+			if p := vh.Guard(func() { data = bfe_tls.VerifTlsrecMarshal(m1) }); p != "" {
+				fail(rep, &msgOp{K: "rt", Framed: true, Expect: "accept"}, "rt/"+sh.T+"/panic-marshal", p)
+				continue
+			}
+			data = exact(data)
+			// the walk is needed for cuts and perturbations only; a failed walk is reported after the
+			// round trip, which tells a marshal defect (violation) from a wrong layout in the spec
+			ext, werr := walk(data, sh.Nodes)
+			rtFailed := false
+			for i := range sh.Ops {
+				op := &sh.Ops[i]
+				if op.K != "rt" && rtFailed {
+					continue
+				}
+				if op.K != "rt" && werr != nil {
+					machinery(fmt.Sprintf("marshalled bytes %x do not follow the layout of the spec: %v", data, werr))
+					return
+				}
+				switch op.K {
+				case "rt":
+					evals++
+					m2, ok, p := parse(sh.T, preset, data)
+					why := ""
+					switch {
+					case p != "":
+						why = "panic-unmarshal"
+					case !ok:
+						why = "unmarshal-false"
+					default:
+						names := make([]string, 0, len(set))
+						for n := range set {
+							names = append(names, n)
+						}
+						sort.Strings(names)
+						for _, n := range names {
+							a, _ := fld(m1, n)
+							b, _ := fld(m2, n)
+							if canon(a) != canon(b) {
+								why = "field:" + n
+								p = fmt.Sprintf("sent %s, parsed %s", canon(a), canon(b))
+								break
+							}
+						}
+						if why == "" {
+							eq := false
+							if p = vh.Guard(func() {
+								bfe_tls.VerifTlsrecMarshal(m2) // fill the marshal cache, as the package's test does
+								eq = bfe_tls.VerifTlsrecEqual(m1, m2)
+							}); p != "" {
+								why = "panic-equal"
+							} else if !eq {
+								why = "equal-false"
+							}
+						}
+						if why == "" {
+							// marshalling the parsed message from its fields must give the same bytes
+							if rf, e := fld(m2, "raw"); e == nil {
+								rf.Set(reflect.Zero(rf.Type()))
+							}
+							var again []byte
+							if p = vh.Guard(func() { again = bfe_tls.VerifTlsrecMarshal(m2) }); p != "" {
+								why = "panic-remarshal"
+							} else if !bytes.Equal(again, data) {
+								why = "remarshal-differs"
+								p = fmt.Sprintf("first %x second %x", data, again)
+							}
+						}
+					}
+					if why != "" {
+						rtFailed = true
+						fail(rep, op, "rt/"+sh.T+"/"+why, fmt.Sprintf("%s pres=%v bytes=%x: %s", sh.T, sh.Pres, data, p))
+					}
+				case "cut", "pert":
+					e, okn := ext[op.Node]
+					if !okn {
+						machinery("operation on unknown node " + op.Node)
+						return
+					}
+					mut, note := mutate(data, e, op, hasHdr, opGen(seed, &sh, rep, op))
+					if mut == nil {
+						skips++
+						continue
+					}
+					evals++
+					_, ok, p := parse(sh.T, preset, mut)
+					why := ""
+					if p != "" {
+						why = "panic"
+					} else if op.Expect == "reject" && ok {
+						why = "accepted"
+					} else if op.Expect == "accept" && !ok {
+						why = "refused"
+					}
+					if why != "" {
+						fail(rep, op, fmt.Sprintf("%s/%s/%s/%s/%s", op.K, sh.T, op.Node, op.W, why),
+							fmt.Sprintf("%s pres=%v %s %s/%s framed=%v (%s): original %x, parsed %x -> unmarshal=%v %s",
+								sh.T, sh.Pres, op.K, op.Node, op.W, op.Framed, note, data, mut, ok, p))
+					}
+				}
+			}
+			// seeded mutations: nothing may panic
+			g = opGen(seed, &sh, rep, &msgOp{K: "fuzz"})
+			for k := 0; k < sh.Fuzz; k++ {
+				mut := append([]byte(nil), data...)
+				switch g.r.Intn(4) {
+				case 0, 1:
+					for j := 0; j < 1+g.r.Intn(3) && len(mut) > 0; j++ {
+						mut[g.r.Intn(len(mut))] = byte(g.r.Intn(256))
+					}
+				case 2:
+					if len(mut) > 0 {
+						mut = mut[:g.r.Intn(len(mut))]
+						for j := 0; j < g.r.Intn(2) && len(mut) > 0; j++ {
+							mut[g.r.Intn(len(mut))] = byte(g.r.Intn(256))
+						}
+					}
+				default:
+					mut = make([]byte, g.r.Intn(120))
+					g.r.Read(mut)
+					if len(mut) > 0 && len(data) > 0 {
+						mut[0] = data[0]
+					}
+				}
+				evals++
+				if _, _, p := parse(sh.T, preset, mut); p != "" {
+					fail(rep, nil, "fuzz/"+sh.T+"/panic", fmt.Sprintf("%s parsing %x: %s", sh.T, mut, p))
+					break
+				}
+			}
+		}
+		total += evals
+		skipped += skips
+		vh.Emit(map[string]interface{}{"id": sh.ID, "shape": true, "evals": evals, "skipped": skips})
+	})
+	vh.Emit(map[string]interface{}{"summary": true, "shapes": shapes, "evals": total, "skipped": skipped})
+}
+
+// mutate applies a cut or a length perturbation; nil when the concrete message has no room for it.
+func mutate(data []byte, e *extent, op *msgOp, hasHdr bool, g gen) ([]byte, string) {
+	if op.K == "cut" {
+		off := -1
+		clen := e.cend - e.cstart
+		switch op.W {
+		case "before":
+			off = e.start
+		case "intag":
+			off = e.start + 1
+		case "inlen":
+			if e.lb >= 2 {
+				off = e.lenAt + 1 + g.r.Intn(e.lb-1)
+			}
+		case "afterlen":
+			if clen >= 1 && e.lenAt >= 0 {
+				off = e.cstart
+			}
+		case "mid":
+			if clen >= 2 {
+				off = e.cstart + 1 + g.r.Intn(clen-1)
+			}
+		case "endm1":
+			if clen >= 2 {
+				off = e.cend - 1
+			}
+		}
+		if off < 0 || off >= len(data) {
+			return nil, ""
+		}
+		if op.Node == "hdr" {
+			off = 0
+			if op.W == "inlen" {
+				off = 1 + g.r.Intn(3)
+			}
+			return append([]byte(nil), data[:off]...), fmt.Sprintf("cut at %d", off)
+		}
+		mut := append([]byte(nil), data[:off]...)
+		if op.Framed && hasHdr {
+			if off < 4 {
+				return nil, ""
+			}
+			l := off - 4
+			mut[1], mut[2], mut[3] = byte(l>>16), byte(l>>8), byte(l)
+		}
+		return mut, fmt.Sprintf("cut at %d of %d", off, len(data))
+	}
+	// pert
+	if e.lenAt < 0 {
+		return nil, ""
+	}
+	v, _ := rdN(data, e.lenAt, e.lb)
+	max := 1<<(8*uint(e.lb)) - 1
+	nv := -1
+	switch op.W {
+	case "plus1":
+		if v+1 <= max {
+			nv = v + 1
+		}
+	case "max":
+		if v != max {
+			nv = max
+		}
+	case "minus1":
+		if v >= 1 {
+			nv = v - 1
+		}
+	case "zero":
+		if v > 0 {
+			nv = 0
+		}
+	}
+	if nv < 0 {
+		return nil, ""
+	}
+	mut := append([]byte(nil), data...)
+	for i := 0; i < e.lb; i++ {
+		mut[e.lenAt+i] = byte(nv >> (8 * uint(e.lb-1-i)))
+	}
+	return mut, fmt.Sprintf("length at %d: %d -> %d", e.lenAt, v, nv)
+}
